@@ -718,6 +718,12 @@ rc::Gen<Case> gen_large() {
 
 }  // namespace
 
+// Memory: the checker allocates and frees many small vectors / strings per step. ASan parks freed chunks in a quarantine
+// of 256 MB *requested* bytes by default, which with redzones and size-class rounding grew a worker to ~1.8 GB RSS after
+// ~1000 cases. 32 MB still holds every chunk freed within a case (use-after-free inside a history is still caught) and
+// keeps a worker at ~0.4 GB. Options given in the ASAN_OPTIONS environment by the engine still apply on top of this.
+extern "C" const char* __asan_default_options() { return "quarantine_size_mb=32"; }
+
 int main(int argc, char** argv) {
   std::vector<vf::Sub> subs;
   subs.push_back({"main", gen_main, prop_main, 1.0});
